@@ -34,7 +34,7 @@ ASSUMPTIONS = [
     "between the LBAD and our LRTY is discarded by the partner (it has not seen the LRTY yet), so only its sequence "
     "number (an accepted, unacknowledged header) is checked; the retransmission proper is what follows the LRTY",
 ]
-BOUNDS = "BMC from reset: quick K=26 (clean layer) / K=12 (corruption free) / K=12 free (best effort); thorough K=36 / K=18 / K=20"
+BOUNDS = "BMC from reset: quick K=24 (clean layer), K=20 (content) / K=12 (corruption free) / K=12 free (best effort); thorough K=36 / K=18 / K=20"
 OUTSIDE = "DATA headers with payload (C36); disable/enable of the transmitter; credit timeout (5 ms); partner LGOODs " \
           "overlapping a retry"
 
@@ -277,10 +277,10 @@ def queries(tier):
     clean = {"ready": 1, "lc_gap": 0, "lc_mask": 0}
     hint = {"*": {"lc_gap": 0, "lc_mask": 0}}
     ctl = ["credit_use", "ready_when_credit", "tx_order", "dl_flag", "recovery_on_mismatch", "retry_req", "tx_format"]
-    qs = [Query("bmc_content", f, 22 if quick else 28, layer=dict(clean, k=0), split=False, timeout=3000, asserts=["tx_content"],
+    qs = [Query("bmc_content", f, 20 if quick else 28, layer=dict(clean, k=0), split=False, timeout=3000, asserts=["tx_content"],
                 covers=[], desc="layer as bmc_clean, tracked header = first accepted: its 96 data bits and link control "
                                 "fields on the wire (first transmission and retransmission) equal what the protocol layer queued"),
-          Query("bmc_clean", f, 26 if quick else 36, layer=clean, split=False, timeout=3000, hints=hint, asserts=ctl,
+          Query("bmc_clean", f, 24 if quick else 36, layer=clean, split=False, timeout=3000, hints=hint, asserts=ctl,
                 covers=["two_headers_sent", "retransmit_dl", "retire_then_reuse", "tracked_sent", "mismatch"] +
                        ([] if quick else ["retx_two", "fifth_header"]),
                 desc="layer: PHY always ready, partner commands uncorrupted and without invalid cycles; command kinds, "
